@@ -6,10 +6,20 @@
     on such substitutions within an explicit fuel bound, an accepted system is
     solved by the result, and the self-containing type that the pinned tree let
     through (F2) is rejected by the fixed occurs check.
-    Not proved (kept visible as [C07_full]; carried by the correspondence and the
-    exhaustive small-system enumeration): termination of [unify] itself and
-    completeness, hence permutation/renaming invariance of the verdict. *)
+    Termination: on a triangular substitution every call of [unify], and the inference of
+    every equation list, ends with enough fuel in a substitution or an error, never in
+    [UFuel], and more fuel never changes the answer ([C07_unify_terminates],
+    [C07_inference_terminates], [C07_answer_stable_under_fuel]; measure: unbound variables of a
+    finite universe, then size of the tags under the substitution).
+    Completeness: a system that has a solution (any valuation of the variables) is never
+    rejected, and every solution still satisfies the substitution the unifier has built (it is
+    most general) ([C07_unify_complete]). Together: inference terminates and accepts exactly the
+    solvable systems ([C07_full_proved], the statement kept visible as [C07_full] since the
+    first version), so acceptance does not depend on the order of the equations
+    ([C07_acceptance_permutation]). *)
 From Oal Require Import Tag Unify UnifyProofs.
+From Oal Require UnifyTerm UnifyComplete.
+From Coq Require Import Permutation.
 
 Theorem C07_unify_sound_partial : forall n eqs s i s' j,
   TRI s -> unify_all n s eqs i = (UOk s', j) ->
@@ -49,7 +59,7 @@ Theorem C07_self_property_rejected :
 Proof. exact self_property_rejected. Qed.
 Print Assumptions C07_self_property_rejected.
 
-(** the full statement, not proved here *)
+(** the full statement *)
 Definition C07_full : Prop :=
   (forall eqs, exists n, fst (unify_all n [] eqs 0) <> UFuel) /\
   (forall eqs, (exists th, solves th eqs /\ TRI th) <->
@@ -71,3 +81,34 @@ Proof.
   { vm_compute in E. vm_compute. congruence. }
   split; [exact H|]. exact (proj1 (unify_all_sound _ _ [] _ _ _ I H)).
 Qed.
+
+(** * termination *)
+Theorem C07_unify_terminates : forall s l r, TRI s -> exists N, forall n, N <= n -> unify n s l r <> UFuel.
+Proof. exact UnifyTerm.unify_total. Qed.
+Print Assumptions C07_unify_terminates.
+
+Theorem C07_inference_terminates : forall eqs s i, TRI s ->
+  exists N, forall n, N <= n -> fst (unify_all n s eqs i) <> UFuel.
+Proof. exact UnifyTerm.unify_all_total. Qed.
+Print Assumptions C07_inference_terminates.
+
+Theorem C07_answer_stable_under_fuel : forall eqs n m s i res j,
+  unify_all n s eqs i = (res, j) -> res <> UFuel -> n <= m -> unify_all m s eqs i = (res, j).
+Proof. exact UnifyTerm.unify_all_weaken. Qed.
+Print Assumptions C07_answer_stable_under_fuel.
+
+(** * completeness *)
+Theorem C07_unify_complete : forall sg n s l r,
+  TRI s -> UnifyComplete.sat sg s -> UnifyComplete.inst sg l = UnifyComplete.inst sg r ->
+  match unify n s l r with UErr _ => False | UOk s' => UnifyComplete.sat sg s' | UFuel => True end.
+Proof. exact UnifyComplete.unify_complete. Qed.
+Print Assumptions C07_unify_complete.
+
+Theorem C07_full_proved : C07_full.
+Proof. exact UnifyComplete.C07_full_holds. Qed.
+Print Assumptions C07_full_proved.
+
+Theorem C07_acceptance_permutation : forall eqs eqs', Permutation eqs eqs' ->
+  (exists n s j, unify_all n [] eqs 0 = (UOk s, j)) -> exists n s j, unify_all n [] eqs' 0 = (UOk s, j).
+Proof. exact UnifyComplete.acceptance_permutation. Qed.
+Print Assumptions C07_acceptance_permutation.
